@@ -302,7 +302,11 @@ func (vc *FuncVC) set(s *State, key string, t Term) {
 
 // nameTerm gives long terms a name so that the script stays linear in the program size.
 func (vc *FuncVC) nameTerm(t Term, hint string) Term {
-	if len(t.S) <= 160 {
+	return vc.nameTermMin(t, hint, 160)
+}
+
+func (vc *FuncVC) nameTermMin(t Term, hint string, min int) Term {
+	if len(t.S) <= min {
 		return t
 	}
 	n := vc.freshConst("d_"+hint, t.Sort)
@@ -599,6 +603,11 @@ func (vc *FuncVC) subRef(ref Term, structT types.Type, field int) Term {
 		// injectivity and non-nil-ness, instantiated at this term (quantifier-free)
 		vc.subSeen[t.S] = true
 		vc.emit("(assert (and (> %s 0) (= (un%s %s) %s)))", t.S, fn, t.S, ref.S)
+		if vc.init != nil {
+			// a nested struct is part of its outer struct's allocation
+			al := vc.get(vc.init, "alloc", "(Array Int Bool)")
+			vc.emit("(assert (= (select %s %s) (select %s %s)))", al.S, t.S, al.S, ref.S)
+		}
 	}
 	return t
 }
